@@ -1,6 +1,7 @@
 package main
 
 import (
+	"strconv"
 	"context"
 	"encoding/json"
 	"fmt"
@@ -124,6 +125,10 @@ func (r *Report) solveAll() {
 	quick, full := 4, 45
 	if r.Tier == "thorough" {
 		quick, full = 10, 120
+	}
+	if v, err := strconv.Atoi(os.Getenv("GOVC_FULL_SEC")); err == nil && v > 0 {
+		// development only (must-fail corpus): a shorter race; never set by the registered commands
+		full = v
 	}
 	jobs := r.cfg.Jobs
 	if jobs < 1 {
